@@ -121,7 +121,7 @@ def envOf (tb : Tables) (c : Case) (cfg : Cfg) : Env := { cfg := cfg, schema := 
 
 def cfgCur (tb : Tables) : Cfg :=
   { skipTable := tb.skip, opFallbackAnyName := tb.opFallbackAnyName, argCountCheckOnly := tb.argCountCheckOnly,
-    dupKeyOverwrites := tb.dupKeyOverwrites, condByIdentity := tb.condByIdentity, anonAmongOthers := tb.anonAmongOthers, metaArgsUnchecked := tb.metaArgsUnchecked }
+    dupKeyOverwrites := tb.dupKeyOverwrites, condByIdentity := tb.condByIdentity, anonAmongOthers := tb.anonAmongOthers, metaArgsUnchecked := tb.metaArgsUnchecked, unionAtMember := tb.unionAtMember }
 
 def runModel (tb : Tables) (c : Case) (cfg : Cfg) : T :=
   encResp (request (envOf tb c cfg) c.ops c.opName c.rootNode (rootTy c))
